@@ -112,8 +112,8 @@ PROPS.update({
     "C11": dict(
         sub="c11", cfgs=["D", "C"], hard=True,
         rule="direct calls of the public moderate_path::<F> on (w, q, truncated): a declined result is always accepted; a definite one must be the exact rounding of w*10^q and, if truncated, its rounding interval must contain all of [w, w+1)*10^q (exact oracle). (w=0, truncated) is excluded: it denotes no input. Non-trivial: 19/20-digit w or truncated.",
-        exhaustive_over={"quick": "structured set (SEAM significands below 2^64, 0..=1100, 2^64-1-j) x every q in [-400,350] + i32 extremes x truncated in {false,true}; HARD(q) (exact ties, closest approaches, straddling truncations, low-word and second-multiplication cases) x both flags; f32 and f64; Eisel-Lemire (D) and Bellerophon (C)",
-                         "thorough": "plus dense 32768-wide windows at 10^18, 10^19, 2^63 and 2^64"},
+        exhaustive_over={"quick": "structured set (SEAM significands below 2^64, EVERY significand below 2^14, 1024-wide windows at 10^18, 10^19, 2^63, 2^64) x every q in [-400,350] + i32 extremes x truncated in {false,true}; HARD(q) (exact ties, closest approaches, straddling truncations, low-word and second-multiplication cases) x both flags; f32 and f64; Eisel-Lemire (D) and Bellerophon (C)",
+                         "thorough": "every significand below 2^18 and dense 32768-wide windows at 10^18, 10^19, 2^63 and 2^64, at every q"},
         assumptions=ASSUME_EXACT[:1] + ["a panic of the stage on meaningless triples in debug builds is recorded, not judged (a panic is not a guess)"]),
     "C12": dict(
         sub="c12", cfgs=["D", "C", "A", "CA"],
@@ -150,7 +150,7 @@ PROPS.update({
     "C19": dict(
         sub="c19", cfgs=["D", "C"],
         rule="all seven shipped copies of the front-end are compiled from the repository sources (build.rs cuts each file to helpers + parse_float and asserts that nothing else was edited) and run on every input; an independent longest-prefix recogniser of the grammar gives the consumed length, the sign and the exact decimal value, which the exact oracle turns into the expected bits (NaN/inf for the special literals of the fuzz/test copies). No panic on any input. Non-trivial: longer than 2 bytes.",
-        exhaustive_over={"quick": "TEXT(6): every byte string of length <= 6 over {+ - 0 1 9 . e E x NUL 0xFF / : 0xB2 0xBD} (12.2 M); every case variant of nan/inf/infinity x sign x 7 suffixes + near misses; structured product sign x 8 integers x 8 fractions x 26 exponents (incl. beyond i32 and at the limits of both float ranges) x 8 suffixes (39.9 k); 7 copies x f32/f64",
+        exhaustive_over={"quick": "TEXT(6): every byte string of length <= 6 over {+ - 0 1 9 . e E x NUL 0xFF / : 0xB2 0xBD} (12.2 M); every 7-byte string over {+ - 0 1 . e E x 0xFF} (4.8 M) and every 8-byte string over {- + 0 1 . e x} (5.8 M); every case variant of nan/inf/infinity x sign x 7 suffixes + near misses; structured product sign x 8 integers x 8 fractions x 26 exponents (incl. beyond i32 and at the limits of both float ranges) x 8 suffixes (39.9 k); 7 copies x f32/f64",
                          "thorough": "TEXT(8) over the 15 bytes (2.7 G strings)"},
         assumptions=ASSUME_EXACT[:1] + ["the grammar is the one in the property statement; the reference recogniser is independent code"]),
 })
